@@ -39,6 +39,10 @@ def script_text(df, ver, rule):
              'vjit() { if [ -n "${VT_JITTER:-}" ]; then _j=$(od -An -N1 -tu1 /dev/urandom); sleep 0.0$((_j % 4))$((_j % 7)); fi; }',
              # kill point after every script step: the whole process group dies there when VT_KILL names it
              'vk() { echo "pt $1 $2" >> "$VT_LOG"; if [ "${VT_KILL:-}" = "$1:$2" ]; then kill -9 0; sleep 10; fi; }',
+             # controlled scheduling: wait at a gate before every step (only when a Serializer is listening)
+             'vg() { if [ -n "${VT_GATE:-}" ]; then _vgn=$((${_vgn:-0}+1)); '
+             'echo "$$ script {\\"rq\\":$_vgn,\\"t\\":\\"$1\\",\\"i\\":$2}" > "$VT_GATE/req"; '
+             'while [ ! -e "$VT_GATE/ack.$$.$_vgn" ]; do sleep 0.002; done; rm -f "$VT_GATE/ack.$$.$_vgn"; fi; }',
              'case "$1" in']
     for t, ops in rule.items():
         lines.append('  %s)' % shquote(rel(t)))
@@ -48,6 +52,7 @@ def script_text(df, ver, rule):
             args = ' '.join(shquote(rel(a)) for a in o['args'])
             if oi > 0:
                 lines.append('    vk %s %d' % (shquote(t), oi))
+            lines.append('    vg %s %d' % (shquote(t), oi))
             if op == 'ifchange':
                 lines.append('    redo-ifchange %s; vjit' % args)
             elif op == 'redo':
@@ -223,6 +228,117 @@ class GateController:
         self.stop = True
         self.th.join()
         os.close(self.fd)
+
+
+class Serializer(GateController):
+    """Controlled scheduling.  Every process of the build stops at every gate point (redo: before each commit, between
+    reaping a job and recording it, around the rename, before select() and before a blocking lock wait; scripts: before
+    every step, `vg`).  Whenever nothing has moved for `settle` seconds, one of the waiting processes - chosen by the
+    seeded generator - is let go.  The real execution is then close to a serial interleaving of the atomic units of
+    RedoSys, a different one for every seed; TLC enumerates all of them, so whatever happens must still agree with a
+    specification behaviour."""
+
+    def __init__(self, gdir, seed, settle=0.012):
+        import random
+        self.rnd = random.Random(seed)
+        self.settle = settle
+        self.released = 0
+        # two policies, by seed: uniformly random choice among the waiting processes, or priorities (PCT, Burckhardt et
+        # al.): a process inherits the priority of its parent, a new branch gets a random one, the waiting process with
+        # the highest priority always runs, and at a few random steps the running branch drops below all others - this
+        # starves one branch of the build for a long stretch, which uniform choice practically never does
+        # (the step at which the priorities change is taken from the seed, so that successive seeds sweep all of them)
+        self.pct = seed % 4 != 0
+        self.prio = {}
+        self.kids = set()
+        self.low = 0.0
+        self.change_at = {(seed * 11) % 61} if self.pct else set()
+        if self.pct and seed % 4 == 3:
+            self.change_at |= set(self.rnd.sample(range(1, 70), 2))
+        super().__init__(gdir, lambda n, pid, pt: 'g', points='commit,job_done,rec_rename,rec_after_fs,select,lockwait')
+
+    def env(self):
+        e = super().env()
+        e['VT_GATE'] = self.dir
+        return e
+
+    def priority(self, pid):
+        if pid in self.prio:
+            return self.prio[pid]
+        # inherit from the nearest ancestor that has one
+        q, chain = pid, []
+        val = None
+        for _ in range(12):
+            try:
+                with open('/proc/%d/stat' % q) as f:
+                    q = int(f.read().rsplit(')', 1)[1].split()[1])
+            except (OSError, ValueError, IndexError):
+                break
+            if q in self.prio:
+                # the first process below q continues q's branch, its later siblings open branches of their own
+                first = q not in self.kids
+                self.kids.add(q)
+                val = self.prio[q] if first else None
+                break
+            chain.append(q)
+            if q <= 1:
+                break
+        if val is None:
+            val = self.rnd.random()
+        self.prio[pid] = val
+        return val
+
+    def loop(self):
+        import select
+        buf = b''
+        pending = []
+        last = time.time()
+        while not self.stop:
+            r, _, _ = select.select([self.fd], [], [], 0.002)
+            if r:
+                buf += os.read(self.fd, 65536)
+                while b'\n' in buf:
+                    line, buf = buf.split(b'\n', 1)
+                    parts = line.decode('utf-8', 'replace').split(' ', 2)
+                    if len(parts) < 2:
+                        continue
+                    try:
+                        fields = json.loads(parts[2]) if len(parts) > 2 else {}
+                    except ValueError:
+                        fields = {}
+                    pending.append((int(parts[0]), fields.get('rq', 0), parts[1]))
+                    self.count += 1
+                    last = time.time()
+                continue
+            if pending and time.time() - last >= self.settle:
+                if self.pct:
+                    for (q, _, _) in pending:
+                        self.priority(q)
+                    k = max(range(len(pending)), key=lambda i: self.prio[pending[i][0]])
+                    if self.released in self.change_at:
+                        self.low -= 1.0
+                        self.prio[pending[k][0]] = self.low
+                        k = max(range(len(pending)), key=lambda i: self.prio[pending[i][0]])
+                    pid, rq, point = pending.pop(k)
+                else:
+                    pid, rq, point = pending.pop(self.rnd.randrange(len(pending)))
+                self.log.append((self.released, pid, point, 'g', '', False, False))
+                self.released += 1
+                tmpf = os.path.join(self.dir, 'tmp.%d.%d' % (pid, rq))
+                try:
+                    with open(tmpf, 'wb') as f:
+                        f.write(b'g')
+                    os.rename(tmpf, os.path.join(self.dir, 'ack.%d.%d' % (pid, rq)))
+                except OSError:
+                    pass
+                last = time.time()
+        # let everything go that is still waiting
+        for pid, rq, point in pending:
+            try:
+                with open(os.path.join(self.dir, 'ack.%d.%d' % (pid, rq)), 'wb') as f:
+                    f.write(b'g')
+            except OSError:
+                pass
 
 
 class Project:
@@ -542,7 +658,7 @@ def history_input(h):
 
 
 def replay_group(prog, alts, root, bindir, trace=None, log_mode=None, jflag=None, cmd_timeout=60, cats=None,
-                 pad=0, watch=False, jitter=False, kill_seed=0):
+                 pad=0, watch=False, jitter=False, kill_seed=0, sched_seed=None):
     """Execute one user-level history.  `alts` are all specification behaviours with that
     input (they differ where the implementation is legitimately nondeterministic, e.g. the
     poll order of wait_for); the real execution must agree, step by step, with at least one.
@@ -656,7 +772,13 @@ def replay_group(prog, alts, root, bindir, trace=None, log_mode=None, jflag=None
             if jitter and step.get('j', 1) > 1 and (kill_seed + i) % 2 == 1 and not has_exit:
                 extra['REDO_SHUFFLE'] = '1'         # --shuffle: the order of the command-line targets is a schedule too
             pre = pj.snapshot()['files'] if watch else None
-            rc, so, se, started, to = pj.run(argv, timeout=cmd_timeout, extra_env=extra)
+            ser = Serializer(os.path.join(root, 'sgate%d' % i), sched_seed * 1000 + i) if sched_seed is not None else None
+            try:
+                rc, so, se, started, to = pj.run(argv, timeout=cmd_timeout, extra_env=extra, gate=ser)
+            finally:
+                if ser:
+                    ser.close()
+                    entry['gates_scheduled'] = ser.released
             snap = pj.snapshot()
             common_diffs = []
             if watch and not direct:
